@@ -120,6 +120,18 @@ static entry_t* find(char const* lhs, char const* file, int line) {
             }
         }
     }
+    /* fall back: array element / pointer target assigned in a loop (the native text is "a[i]", the trace says
+     * "a[3]"): same line, same base name, first entry not used yet (trace order = execution order) */
+    for (i = 0; i < n_entries; i++) {
+        entry_t* e = &entries[i];
+        if (!e->used && e->line == line && !strcmp(e->file, base(file)) && strncmp(e->lhs, "return_value", 12)) {
+            size_t k = strcspn(n, "[");
+            if (k > 0 && !strncmp(e->lhs, n, k) && (e->lhs[k] == '[' || e->lhs[k] == 0)) {
+                e->used = 1;
+                return e;
+            }
+        }
+    }
     return NULL;
 }
 
